@@ -59,7 +59,9 @@ type World struct {
 	Names *Names
 	Rec   *Recorder
 	Init  DbView
-	ctx   context.Context
+	// ConfigAnomalies: static oracle right after ValidateFix (Dependencies vs declared references)
+	ConfigAnomalies []string
+	ctx             context.Context
 }
 
 // NewWorld builds the configuration, starts the fake database, applies the
@@ -89,6 +91,7 @@ func NewWorld(spec WorldSpec) (*World, error) {
 		return nil, err
 	}
 	w.Conf, w.JSON = conf, js
+	w.checkDependencies()
 	var sn, in, tn []string
 	for _, s := range spec.Srcs {
 		sn = append(sn, s.Name)
@@ -225,6 +228,38 @@ func (w *World) connect(migrate bool) error {
 		}
 	}
 	return nil
+}
+
+// checkDependencies is the static oracle on ValidateFix: for every
+// integration, the SET of names in Dependencies equals the set of integrations
+// its declaration references through filter_ref (event inputs and block fields).
+func (w *World) checkDependencies() {
+	w.ConfigAnomalies = nil
+	for i := range w.Spec.IGs {
+		spec := &w.Spec.IGs[i]
+		var got []string
+		for _, ig := range w.Conf.Integrations {
+			if ig.Name == spec.Name {
+				got = ig.Dependencies
+			}
+		}
+		set := func(xs []string) string {
+			m := map[string]bool{}
+			for _, x := range xs {
+				m[x] = true
+			}
+			var ks []string
+			for k := range m {
+				ks = append(ks, k)
+			}
+			sort.Strings(ks)
+			return fmt.Sprint(ks)
+		}
+		if set(got) != set(spec.DeclaredRefs()) {
+			w.ConfigAnomalies = append(w.ConfigAnomalies, fmt.Sprintf("ValidateFix: integration %q references %s through filter_ref but Dependencies = %s",
+				spec.Name, set(spec.DeclaredRefs()), set(got)))
+		}
+	}
 }
 
 // Reconfigure models a restart of the process with another batch size /
